@@ -234,3 +234,87 @@ def shutdown_pipeline(tier):
         work.cleanup()
     cache_put(key, res)
     return res
+
+
+# ------------------------------------------------------------------ requestor handles: clones, outages, successors (C04, C12)
+RL_TIERS = {"quick": {"ex": 60, "succ": 70, "sim": 40, "simn": 400}, "thorough": {"ex": 700, "succ": 442, "sim": 1500, "simn": 3000}}
+
+
+def reqlife_pipeline(tier):
+    """RequestorLife.tla model-checked; RequestorLifeGen schedules (those that exercise a late reply meeting a
+    waiting call first) replayed with the real client library, real server and a scripted wire-level replier;
+    Trace_RequestorLife takes every step through the specification's own action and compares every outcome."""
+    key = "reqlife-%s-%s-%d" % (tier, tree_key(), seed())
+    c = cache_get(key)
+    if c is not None:
+        log("[reqlife] reusing pipeline result computed %.0fs ago for the same tree/seed" % (time.time() - c["at"]))
+        c["cached"] = True
+        return c
+    build_harness()
+    T = RL_TIERS[tier]
+    work = Work("reqlife-%s" % tier)
+    t0 = time.time()
+    res = {"at": time.time(), "cached": False}
+    try:
+        m = tlc("RequestorLife", "MC_RequestorLife.cfg", work, workers=8, timeout=1800, coverage=True)
+        cov = m.coverage()
+        res["models"] = [{"module": "RequestorLife", "cfg": "MC_RequestorLife.cfg", "states": m.distinct, "transitions": m.generated,
+                          "ok": m.ok, "violated": m.violated or m.errors[:2], "wall_s": round(m.wall, 1),
+                          "actions_never_taken": sorted(a for a, v in cov.items() if v[1] == 0)}]
+        res["model_ok"] = m.ok
+        res["model_tail"] = "" if m.ok else m.out[-3000:]
+        rnd = random.Random(seed())
+
+        def pick(scheds, n):
+            tagged = [s for s in scheds if s and s[-1].get("op") == "tag" and s[-1].get("f", 0) > 0]
+            plain = [s for s in scheds if not (s and s[-1].get("op") == "tag" and s[-1].get("f", 0) > 0)]
+            rnd.shuffle(tagged)
+            rnd.shuffle(plain)
+            sel = tagged[:max(n * 2 // 3, 1)]
+            sel += plain[:n - len(sel)]
+            return [[x for x in s if x.get("op") != "tag"] for s in sel], len(tagged)
+
+        g1 = tlc("RequestorLifeGen", "MC_RequestorLifeGen.cfg", work, workers=8, timeout=1800)
+        g2 = tlc("RequestorLifeGen", "MC_RequestorLifeGen_succ.cfg", work, workers=8, timeout=1800)
+        g3 = tlc("RequestorLifeGen", "MC_RequestorLifeGen_sim.cfg", work, workers=1, timeout=1800,
+                 extra=["-seed", str(seed() + 5), "-simulate", "num=%d" % T["simn"], "-depth", "100"])
+        s1, t1 = pick(g1.sched_lines(), T["ex"])
+        s2, t2 = pick(g2.sched_lines(), T["succ"])
+        s3, t3 = pick(g3.sched_lines(), T["sim"])
+        scheds = s1 + s2 + s3
+        sf = work.path("rl-sched.jsonl")
+        with open(sf, "w") as f:
+            for i, st in enumerate(scheds):
+                f.write(json.dumps({"id": "rl-%d" % i, "steps": st}) + "\n")
+        trace = work.path("trace-reqlife.ndjson")
+        p = sh([os.path.join(BIN, "e2e"), "reqlife", "--cases", sf, "--out", trace, "--seed", str(seed()), "--par", "16"], timeout=7200)
+        summ = json.loads(p.stdout.strip().splitlines()[-1])
+        r = tlc("Trace_RequestorLife", "Trace_RequestorLife.cfg", work, workers=1, trace=trace, timeout=3600, xmx="8g")
+        if not r.ok:
+            raise ToolError("trace validation (Trace_RequestorLife) did not complete:\n%s" % r.out[-3000:])
+        lines = [x for x in open(trace).read().split("\n") if x]
+        starts = {}
+        for i, x in enumerate(lines):
+            if x.startswith('{"ev":"case"'):
+                starts[json.loads(x)["run"]] = i
+        viols = []
+        for v in r.viol:
+            v = dict(v)
+            b = starts.get(v["run"], max(0, v["line"] - 40))
+            v["schedule"] = {"id": "rl-%d" % (v["run"] - 1), "steps": scheds[v["run"] - 1]} if 0 < v["run"] <= len(scheds) else None
+            v["context"] = [json.loads(x) for x in lines[b:v["line"]]][-80:]
+            v["event"] = json.loads(lines[v["line"] - 1]) if v["line"] - 1 < len(lines) else {}
+            viols.append(v)
+        res.update({"schedules": {"exhaustive_2x2": [len(g1.sched_lines()), len(s1), t1], "exhaustive_successors": [len(g2.sched_lines()), len(s2), t2],
+                                  "simulated": [len(g3.sched_lines()), len(s3), t3], "legend": "[generated, used, tagged 'late reply meets a waiting call']"},
+                    "runs": summ["runs"], "events": summ["events"], "calls_compared": sum(1 for x in lines if '"ev":"call_ret"' in x),
+                    "viol": viols[:60], "n_viol": len(viols), "inconclusive": r.notes[:20], "n_inconclusive": len(r.notes),
+                    "sample": [json.loads(x) for x in lines[:16]], "wall_s": round(time.time() - t0, 1)})
+        log("[reqlife] RequestorLife %d states ok=%s; %d schedules on the real client/server: %d events, %d call outcomes compared; flagged %d, notes %d" % (
+            m.distinct, m.ok, summ["runs"], summ["events"], res["calls_compared"], len(viols), len(r.notes)))
+        for n in r.notes[:4]:
+            log("NOTE reqlife run=%s line=%s %s" % (n["run"], n["line"], n["what"]))
+    finally:
+        work.cleanup()
+    cache_put(key, res)
+    return res
